@@ -245,7 +245,29 @@ def inline_new_helpers(raw, known):
                     return True
         return False
     helpers = {q: b for q, b in helpers.items() if not reaches(q, q, set())}
-    if not helpers:
+    # audited *leaves* (a couple of statements, no calls: setters, accessors) reached over a call edge the audited tree
+    # does not have — `self.set_transform(&t)` where the audited function stored the field, `self.width()` for the field —
+    # are inlined at that new edge as well; their own bodies stay
+    def is_leaf(b):
+        n = 0
+        for blk in b['blocks']:
+            if blk.get('cleanup'):
+                continue
+            if blk['t']['k'] not in ('return', 'goto', 'unreachable'):
+                return False
+            n += len(blk['st'])
+        return n <= 6
+    leaves = {q: b for q, b in bodies.items() if q in known and isinstance(known[q], dict) and 'callees' in known[q]
+              and b.get('kind') in ('Fn', 'AssocFn') and not b.get('impl_trait') and is_leaf(b)}
+    has_edges = any(isinstance(v, dict) and 'callees' in v for v in known.values())
+    def new_leaf_edge(q, c):
+        if not has_edges or c not in leaves or c == q:
+            return False
+        kq = known.get(q)
+        if isinstance(kq, dict) and 'callees' in kq:
+            return c not in kq['callees']
+        return q not in known       # a new function's edges are all new (it is inlined itself if private)
+    if not helpers and not any(new_leaf_edge(q, _callee(blk['t'])) for q, b in bodies.items() for blk in b['blocks'] if blk['t']['k'] == 'call'):
         return []
     used = set()
     touched = set()
@@ -261,6 +283,11 @@ def inline_new_helpers(raw, known):
                     if c in helpers and c != q:
                         _inline_at(b, bi, helpers[c])
                         used.add(c)
+                        touched.add(q)
+                        changed = True
+                    elif new_leaf_edge(q, c) and q not in helpers:
+                        _inline_at(b, bi, copy.deepcopy(leaves[c]))
+                        used.add('edge %s -> %s' % (q.split('::')[-1], c.split('::')[-1]))
                         touched.add(q)
                         changed = True
                 bi += 1
